@@ -401,9 +401,14 @@ class World:
                 elif what == "send_huge":
                     await self.ws.send_bytes(HUGE)
                 elif what == "send_near":
-                    # just below the writer's drain threshold (64 KiB of output since the last drain): the NEXT frame - a Close
+                    # just below the writer's drain threshold (its limit of output since the last drain): the NEXT frame - a Close
                     # frame, say - is the one that crosses it and has to wait for the peer
-                    await self.ws.send_bytes(b"n" * (65536 - (8 if self.side == "client" else 4) - 2))
+                    limit = getattr(self.ws._writer, "_limit", 65536)  # noqa: SLF001 (the threshold differs between client and server)
+                    mask = 4 if self.side == "client" else 0
+                    n = limit - 2 - mask - 4
+                    if n >= 65536:
+                        n = limit - 2 - mask - 10
+                    await self.ws.send_bytes(b"n" * n)
                 else:
                     await self.ws.ping()
             except asyncio.CancelledError:
